@@ -929,6 +929,7 @@ func main() {
 	writeSinks(fset, files, *out)
 	writeTrees(t, *out)
 	writeGuard(t, *out)
+	writeScanner(t, *out)
 	if err := os.MkdirAll(*out, 0o755); err != nil {
 		fmt.Fprintln(os.Stderr, err)
 		os.Exit(2)
@@ -976,6 +977,14 @@ func writeSinks(fset *token.FileSet, files []*ast.File, out string) {
 							add(v, "log."+sel.Sel.Name)
 						case pkg.Name == "slog" && slogPkgFuncs[sel.Sel.Name]:
 							add(v, "slog."+sel.Sel.Name)
+						case pkg.Name == "os" && sel.Sel.Name == "NewFile":
+							add(v, "os.NewFile") // a descriptor number turned into a file: 1 and 2 are stdout / stderr
+						case pkg.Name == "syscall" && (sel.Sel.Name == "Write" || sel.Sel.Name == "Pwrite"):
+							add(v, "syscall."+sel.Sel.Name)
+						case pkg.Name == "debug" && (sel.Sel.Name == "PrintStack" || sel.Sel.Name == "WriteHeapDump"):
+							add(v, "debug."+sel.Sel.Name)
+						case (pkg.Name == "spew" || pkg.Name == "pretty") && (strings.HasPrefix(sel.Sel.Name, "Dump") || strings.HasPrefix(sel.Sel.Name, "Print")):
+							add(v, pkg.Name+"."+sel.Sel.Name)
 						}
 					}
 				}
